@@ -37,7 +37,11 @@ import (
 
 func init() {
 	props["C03"] = func(r *Rec) { runC34(r, "C03"); recFor(r, "C03") }
-	props["C04"] = func(r *Rec) { runC34(r, "C04"); recFor(r, "C04") }
+	props["C04"] = func(r *Rec) {
+		runC34(r, "C04")
+		recFor(r, "C04")
+		c20For(r, "C04", map[string]string{"C20/escrow/module-below-recorded-bonds": "C04/solvency/layer2-escrow", "C20/lp-msg/free-money": "C04/solvency/layer2-lp-free-money"})
+	}
 }
 
 type c34 struct {
@@ -644,7 +648,42 @@ func c34History(r *Rec, prop string, h int, nBlocks int) {
 				if r.Rng.Intn(8) == 0 && len(dapps) > 0 {
 					name = dapps[r.Rng.Intn(len(dapps))] // possibly removed at the end of its bootstrap period
 				}
-				if r.Rng.Intn(2) == 0 {
+				if r.Rng.Intn(4) == 0 {
+					// the liquidity-pool messages of a dApp (redeem LP tokens, swap into LP tokens, convert into ANOTHER or the
+					// SAME dApp's LP tokens) by a holder of its LP token if there is one
+					dp := app.Layer2Keeper.GetDapp(w.ReadCtx(), name)
+					who := s
+					for i := range A {
+						if dp.Name != "" && app.BankKeeper.GetBalance(w.ReadCtx(), A[i], dp.LpToken()).Amount.IsPositive() && r.Rng.Intn(2) == 0 {
+							who = i
+						}
+					}
+					target := name
+					if r.Rng.Intn(2) == 0 {
+						target = live[r.Rng.Intn(len(live))].Name
+					}
+					which := r.Rng.Intn(3)
+					ops = append(ops, c34Op{[]string{"l2-lp-redeem", "l2-lp-swap", "l2-lp-convert"}[which], who, func(ctx sdk.Context) error {
+						cur := app.Layer2Keeper.GetDapp(ctx, name)
+						if cur.Name == "" {
+							return fmt.Errorf("dapp gone")
+						}
+						lp := app.BankKeeper.GetBalance(ctx, A[who], cur.LpToken()).Amount.QuoRaw(3)
+						if !lp.IsPositive() {
+							lp = sdk.NewInt(1 + amt%1000)
+						}
+						var err error
+						switch which {
+						case 0:
+							_, err = e.ls.RedeemDappPoolTx(sdk.WrapSDKContext(ctx), &l2types.MsgRedeemDappPoolTx{Sender: A[who].String(), DappName: name, LpToken: sdk.NewCoin(cur.LpToken(), lp), Slippage: sdk.OneDec()})
+						case 1:
+							_, err = e.ls.SwapDappPoolTx(sdk.WrapSDKContext(ctx), &l2types.MsgSwapDappPoolTx{Sender: A[who].String(), DappName: name, Token: sdk.NewInt64Coin("ukex", 1000+amt), Slippage: sdk.OneDec()})
+						default:
+							_, err = e.ls.ConvertDappPoolTx(sdk.WrapSDKContext(ctx), &l2types.MsgConvertDappPoolTx{Sender: A[who].String(), DappName: name, TargetDappName: target, LpToken: sdk.NewCoin(cur.LpToken(), lp), Slippage: sdk.OneDec()})
+						}
+						return err
+					}})
+				} else if r.Rng.Intn(2) == 0 {
 					ops = append(ops, c34Op{"l2-bond", s, func(ctx sdk.Context) error {
 						_, err := e.ls.BondDappProposal(sdk.WrapSDKContext(ctx), &l2types.MsgBondDappProposal{Sender: A[s].String(), DappName: name, Bond: sdk.NewInt64Coin("ukex", amt)})
 						return err
